@@ -51,6 +51,11 @@ def cases(tier, rng):
                     ops += [O(dis, nm, second)] + attempts(att)
                     ops += [O(en, nm, ["P2"])] + attempts(att)
                 base(kind="perm", ops=ops, exposespawn=rng.random() < 0.5, exposeapp=rng.random() < 0.5)
+    # forged parent: enabled for one peer only, the other one asks in its name (and the other way round)
+    for only in ("P1", "P2"):
+        for nm in names_s:
+            base(kind="perm", ops=[O("enspawn", nm, [only])] + attempts("spawn") + [O("fspawn", nm, peer=p) for p in peers] + [O("disspawn", nm, [only])] + [O("fspawn", nm, peer=p) for p in peers],
+                 exposespawn=rng.random() < 0.5, exposeapp=False)
     for spawnb, appb in ((False, True), (True, False), (False, False)):
         base(kind="perm", spawnb=spawnb, appb=appb, ops=[O("enspawn", "s1"), O("enapp", "a1")] + attempts("spawn") + attempts("app"), exposespawn=True, exposeapp=True)
     for _ in range(10 if tier == "quick" else 2500):
@@ -62,7 +67,8 @@ def cases(tier, rng):
             elif r < 0.35: ops.append(O("disspawn", rng.choice(names_s), nodes))
             elif r < 0.5: ops.append(O("enapp", rng.choice(names_a), nodes))
             elif r < 0.65: ops.append(O("disapp", rng.choice(names_a), nodes))
-            elif r < 0.83: ops.append(O("spawn", rng.choice(names_s), peer=rng.choice(peers)))
+            elif r < 0.77: ops.append(O("spawn", rng.choice(names_s), peer=rng.choice(peers)))
+            elif r < 0.83: ops.append(O("fspawn", rng.choice(names_s), peer=rng.choice(peers)))
             else: ops.append(O("app", rng.choice(names_a), peer=rng.choice(peers)))
         ops += attempts("spawn") + attempts("app")
         base(kind="perm", ops=ops, spawnb=rng.random() < 0.85, appb=rng.random() < 0.85, exposespawn=rng.random() < 0.5, exposeapp=rng.random() < 0.5)
@@ -124,7 +130,7 @@ def main(prop, tier):
                 lines += open(p).read().splitlines()
         open(os.path.join(w, "acc_trace.ndjson"), "w").write("\n".join(lines) + "\n")
         # vacuity guards: some attempts must have succeeded and some cookie cases must have connected
-        oks = sum(1 for x in lines for o in json.loads(x)["c"]["ops"] if o["op"] in ("spawn", "app") and o["res"] == "ok")
+        oks = sum(1 for x in lines for o in json.loads(x)["c"]["ops"] if o["op"] in ("spawn", "app", "fspawn") and o["res"] == "ok")
         conns = sum(1 for x in lines if json.loads(x)["ev"] == "cookie" and json.loads(x)["dial"] == "ok")
         if oks == 0 or conns == 0:
             raise vlib.Infra("vacuous run: %d successful attempts, %d connected pairs" % (oks, conns))
